@@ -144,6 +144,7 @@ type Unit struct {
 	selectChoices []string
 	specErrors  []string
 	unitNames   map[string]Val
+	closureBlocks map[string]*Block
 	curPos      token.Pos
 }
 
